@@ -8,7 +8,7 @@ from ..findings import still_fails
 ID = "C16"
 LEAN_MODULES = ["PycModel.Properties.C16"]
 NAMESPACES = ["PycModel.C16", "PycModel.ParenExpr"]
-REQUIRED_THEOREMS = ["PycModel.C16.scanner_linear_iterations", "PycModel.C16.each_token_lexed_once", "PycModel.C16.speculation_never_relexes", "PycModel.C16.whole_parse_lexes_each_token_once", "PycModel.C16.production_keeps_buffer_invariant", "PycModel.C16.expression_fuel_linear", "PycModel.C16.precedence_climbing_fuel_linear", "PycModel.ParenExpr.fuel_linear"]
+REQUIRED_THEOREMS = ["PycModel.C16.scanner_linear_iterations", "PycModel.C16.each_token_lexed_once", "PycModel.C16.speculation_never_relexes", "PycModel.C16.whole_parse_lexes_each_token_once", "PycModel.C16.production_keeps_buffer_invariant", "PycModel.C16.expression_fuel_linear", "PycModel.C16.precedence_climbing_fuel_linear", "PycModel.ParenExpr.fuel_linear", "PycModel.C16.impl_star_height"]
 LEVEL = "proof"
 TRUSTED = ["partial: CPython's re engine cost and wall-clock time are outside any model; a parser-level linear bound (ticks <= a*tokens + b for all inputs) is not proved - the model's tick counter is tied exactly to the real _TokenStream call counts and growth is measured on the families below"]
 ASSUMPTIONS = []
@@ -180,6 +180,14 @@ REGEX_FAMILIES = {
     "long-decimal-escape": lambda n: 'char *s = "' + "\\1" * n + '";',
     "long-digit-run": lambda n: "int v = " + "1" * n + ";",
     "long-hex-float-digits": lambda n: "double v = 0x" + "f" * n + ".8p1;",
+    "long-hex-int": lambda n: "unsigned long long v = 0x" + "F" * n + "ULL;",
+    "long-hex-int-then-ident": lambda n: "int v = 0x" + "a" * n + " g;",
+    "long-octal-int": lambda n: "int v = 0" + "7" * n + "u;",
+    "long-bin-int": lambda n: "int v = 0b" + "10" * (n // 2) + ";",
+    "long-float-no-exp": lambda n: "double v = " + "1" * n + "f;",
+    "long-char-const": lambda n: "int c = '" + "a" * n + "';",
+    "long-wide-string": lambda n: 'int *s = L"' + "\\\\x" * (n // 3) + '";',
+    "long-ident-then-quote": lambda n: "int " + "u8" * (n // 2) + "'a';",
     "unterminated-string": lambda n: 'char *s = "' + "a" * n,
     "unterminated-char": lambda n: "int c = '" + "a" * n,
     "bad-escape-string": lambda n: 'char *s = "' + "ab" * n + "\\q" + "cd" * n + '";',
@@ -193,13 +201,31 @@ REGEX_FAMILIES = {
 }
 
 
+LEX_BUDGET_S = 10
+
+
 def lex_time(args):
+    """wall time of lexing one adversarial literal, under a budget (a catastrophic regex must not hang the check)"""
+    import signal
     name, n = args
     from ..pylex import py_scan
     text = REGEX_FAMILIES[name](n)
+
+    def onalarm(sig, frm):
+        raise _Timeout()
+
+    old = signal.signal(signal.SIGALRM, onalarm)
+    signal.setitimer(signal.ITIMER_REAL, LEX_BUDGET_S)
     t0 = time.time()
-    py_scan(text, limit=10 * len(text) + 100)
-    return name, n, len(text), time.time() - t0
+    try:
+        py_scan(text, limit=10 * len(text) + 100)
+        wall = time.time() - t0
+    except _Timeout:
+        wall = float(LEX_BUDGET_S) + 1
+    finally:
+        signal.setitimer(signal.ITIMER_REAL, 0)
+        signal.signal(signal.SIGALRM, old)
+    return name, n, len(text), wall
 
 
 def run(ctx):
@@ -261,8 +287,8 @@ def run(ctx):
     ctx.extra["pool_programs_tick_equal"] = len(ptexts)
     ctx.extra["families"] = {name: [(r[1], r[2], r[4], r[5]) for r in sorted(rows, key=lambda r: r[1]) if r[3] == "OK"] for name, rows in by.items()}
     # adversarial literal families: wall time with wide margins, and linear growth of time is not asserted
-    sizes = [200, 2000] if ctx.quick() else [200, 2000, 20000]
-    lres = pmap(lex_time, [(n, s) for n in REGEX_FAMILIES for s in sizes])
+    sizes = [24, 200, 2000] if ctx.quick() else [24, 200, 2000, 20000]
+    lres = [lex_time((n, s)) for n in REGEX_FAMILIES for s in sizes]      # serial: signal-based budget
     for name, n, size, wall in lres:
         n_eval += 1
         limit = 2.0 if size < 5000 else 8.0
